@@ -339,19 +339,70 @@ theorem parse_ok_leaf_eq {b raw' : Bytes} (h : parse b = .ok (.leaf raw')) : raw
     injection ht with ht
     rw [ht, hb]; simp
 
+theorem encMapLen_head (n : Nat) : ∃ c r, encMapLen n = c :: r ∧ isMapCode c = true := by
+  unfold encMapLen
+  split
+  · rename_i h
+    refine ⟨_, [], rfl, ?_⟩
+    unfold isMapCode; rw [u8_ofNat_toNat (by omega)]; simp; omega
+  · split
+    · exact ⟨0xde, _, rfl, by decide⟩
+    · exact ⟨0xdf, _, rfl, by decide⟩
+
+theorem encArrLen_head (n : Nat) : ∃ c r, encArrLen n = c :: r ∧ isArrayCode c = true := by
+  unfold encArrLen
+  split
+  · rename_i h
+    refine ⟨_, [], rfl, ?_⟩
+    unfold isArrayCode; rw [u8_ofNat_toNat (by omega)]; simp; omega
+  · split
+    · exact ⟨0xdc, _, rfl, by decide⟩
+    · exact ⟨0xdd, _, rfl, by decide⟩
+
+/-- a container never serialises to a scalar value's bytes -/
+theorem scalar_ne_container {v : Bytes} (hv : ScalarVal v) :
+    (∀ fs, serialize (.map fs) ≠ v) ∧ (∀ xs, serialize (.arr xs) ≠ v) := by
+  constructor
+  · intro fs h
+    rw [serialize] at h
+    obtain ⟨c, r, hc, hm⟩ := encMapLen_head fs.length
+    rw [hc] at h
+    have := (hv c (r ++ serFields fs) (by rw [← h]; rfl)).1
+    rw [hm] at this; cases this
+  · intro xs h
+    rw [serialize] at h
+    obtain ⟨c, r, hc, hm⟩ := encArrLen_head xs.length
+    rw [hc] at h
+    have := (hv c (r ++ serItems xs) (by rw [← h]; rfl)).2
+    rw [hm] at this; cases this
+
+theorem canonVal_scalar {v : Bytes} (hv : ScalarVal v) : canonVal v = v := by
+  unfold canonVal decode
+  cases hp : parse v with
+  | error e => rfl
+  | ok d =>
+    simp only
+    cases v with
+    | nil => exact absurd (parse_nonempty hp) (by simp)
+    | cons c r =>
+      have hs := hv c r rfl
+      rw [parse_leaf_self hp hs.1 hs.2, serialize]
+
+/-- the unrepaired rule on scalar values is the Spec's rule -/
 theorem removeFirst_norm {N : Nat} {v : Bytes} (hv : ScalarVal v) : ∀ (xs : List Node), WfBI N xs →
     normItems (removeFirst v xs) = dropFirst v (normItems xs)
   | [], _ => by simp [removeFirst, normItems, dropFirst]
   | x :: rest, hw => by
     rw [WfBI] at hw
     have ih := removeFirst_norm hv rest hw.2
+    have hne := scalar_ne_container hv
     cases x with
     | leaf raw =>
       have hx := hw.1
       rw [WfB] at hx
       obtain ⟨d, hd⟩ := hx
       simp only [removeFirst]
-      rw [normItems, normLeaf_of_parse hd]
+      rw [normItems, normLeaf_of_parse hd, dropFirst]
       by_cases heq : raw = v
       · rw [if_pos heq]
         subst heq
@@ -359,20 +410,70 @@ theorem removeFirst_norm {N : Nat} {v : Bytes} (hv : ScalarVal v) : ∀ (xs : Li
         | nil => exact absurd (parse_nonempty hd) (by simp)
         | cons c r =>
           have hs := hv c r rfl
-          rw [parse_leaf_self hd hs.1 hs.2]
-          simp [dropFirst]
+          rw [parse_leaf_self hd hs.1 hs.2, serialize, if_pos rfl]
       · rw [if_neg heq, normItems, normLeaf_of_parse hd, ih]
         cases d with
         | leaf raw' =>
           have := parse_ok_leaf_eq hd
           subst this
-          simp [dropFirst, heq]
-        | map fs => simp [dropFirst]
-        | arr ys => simp [dropFirst]
-    | map fs => simp only [removeFirst]; rw [normItems, normItems, norm, ih]; simp [dropFirst]
-    | arr ys => simp only [removeFirst]; rw [normItems, normItems, norm, ih]; simp [dropFirst]
+          rw [serialize, if_neg heq]
+        | map fs => rw [if_neg (hne.1 fs)]
+        | arr ys => rw [if_neg (hne.2 ys)]
+    | map fs =>
+      simp only [removeFirst]
+      rw [normItems, normItems, norm, ih, dropFirst, if_neg (hne.1 _)]
+    | arr ys =>
+      simp only [removeFirst]
+      rw [normItems, normItems, norm, ih, dropFirst, if_neg (hne.2 _)]
 
-theorem sim_removeVal {N : Nat} {v : Bytes} (hv : ScalarVal v) : Sim N (hRemoveVal v) (sRemoveVal v) := by
+/-- the canonical encoding of an element is the encoding of the decoded element -/
+theorem canon_serialize {x : Node} (hw : WfTree x) : canon (serialize x) = serialize (norm x) := by
+  have hp := serialize_parse hw
+  have hpos := serialize_pos x hw
+  cases hb : serialize x with
+  | nil => rw [hb] at hpos; simp at hpos
+  | cons c r =>
+    rw [hb] at hp
+    unfold canon
+    simp only
+    by_cases hc : (isMapCode c || isArrayCode c) = true
+    · rw [if_pos hc, hp]
+    · rw [if_neg hc]
+      have hc' : isMapCode c = false ∧ isArrayCode c = false := by
+        cases h1 : isMapCode c <;> cases h2 : isArrayCode c <;> simp_all
+      rw [parse_leaf_self hp hc'.1 hc'.2, serialize]
+
+theorem canon_eq_canonVal (v : Bytes) : canon v = canonVal v := by
+  unfold canon canonVal decode
+  cases v with
+  | nil => rfl
+  | cons c r =>
+    simp only
+    by_cases hc : (isMapCode c || isArrayCode c) = true
+    · rw [if_pos hc]
+      cases parse (c :: r) <;> rfl
+    · rw [if_neg hc]
+      have hc' : isMapCode c = false ∧ isArrayCode c = false := by
+        cases h1 : isMapCode c <;> cases h2 : isArrayCode c <;> simp_all
+      cases hp : parse (c :: r) with
+      | error e => rfl
+      | ok d => simp only; rw [parse_leaf_self hp hc'.1 hc'.2, serialize]
+
+/-- the repaired rule is the Spec's rule, for every value -/
+theorem removeFirstC_norm {N : Nat} (hN : N < 2 ^ 32) (w : Bytes) : ∀ (xs : List Node), WfBI N xs →
+    normItems (removeFirstC w xs) = dropFirst w (normItems xs)
+  | [], _ => by simp [removeFirstC, normItems, dropFirst]
+  | x :: rest, hw => by
+    rw [WfBI] at hw
+    have ih := removeFirstC_norm hN w rest hw.2
+    rw [removeFirstC, normItems, dropFirst, canon_serialize (WfB_wf hN x hw.1)]
+    split
+    · rfl
+    · rw [normItems, ih]
+
+theorem sim_removeVal {N : Nat} {v : Bytes} {rm : List Node → List Node}
+    (hrm : ∀ xs, WfBI N xs → normItems (rm xs) = dropFirst (canonVal v) (normItems xs)) :
+    Sim N (hRemoveVal rm) (sRemoveVal v) := by
   intro u hit u' hu _ hw h
   cases hit with
   | target i =>
@@ -386,10 +487,21 @@ theorem sim_removeVal {N : Nat} {v : Bytes} (hv : ScalarVal v) : Sim N (hRemoveV
       have hg' := norm_getChild hu hg
       rw [norm] at hg'
       rw [hg']; simp only
-      rw [norm_setChild hu, norm, removeFirst_norm hv xs hc.2]
+      rw [norm_setChild hu, norm, hrm xs hc.2]
     · cases h
   | appendSlot => simp [hRemoveVal] at h; subst h; simp [sRemoveVal]
   | missing rem => simp [hRemoveVal] at h; subst h; simp [sRemoveVal]
+
+/-- `rmVal` against the Spec: always for the repaired rule, on scalar values for the old one -/
+theorem rmVal_norm {N : Nat} (hN : N < 2 ^ 32) (c : Bool) (v : Bytes) (hv : c = false → ScalarVal v) :
+    ∀ xs, WfBI N xs → normItems (rmVal c v xs) = dropFirst (canonVal v) (normItems xs) := by
+  intro xs hw
+  unfold rmVal
+  cases c with
+  | true => simp only [if_true]; rw [canon_eq_canonVal]; exact removeFirstC_norm hN _ xs hw
+  | false =>
+    simp only [Bool.false_eq_true, if_false]
+    rw [canonVal_scalar (hv rfl)]; exact removeFirst_norm (hv rfl) xs hw
 
 /-! ### MERGE -/
 
